@@ -6,7 +6,7 @@ use crate::ep::{self, EchoResp, Fv};
 use crate::gen::*;
 use crate::Server;
 use dsverif::live::{self, Conn, ReadErr, Resp};
-use dsverif::util::{g_bytes, g_list, g_opt, g_str, Line};
+use dsverif::util::{g_list, g_opt, Line};
 use serde_json::{json, Value};
 
 #[derive(Clone, Debug)]
